@@ -147,10 +147,12 @@ impl<R: Read> SimRead<R> {
 impl<R: Read> Read for SimRead<R> {
     fn read(&mut self, buf: &mut [u8]) -> io::Result<usize> {
         if !self.enabled {
+            crate::fault_point("stream_read");
             return self.inner.read(buf);
         }
         self.slurp()?;
         self.calls += 1;
+        crate::fault_point("stream_read");
         let remaining = self.data.as_ref().unwrap().len() - self.pos;
         if buf.is_empty() || remaining == 0 {
             return Ok(0);
